@@ -746,6 +746,20 @@ pub fn run_check(info: &PropertyInfo, tier: Tier, seed: u64) -> i32 {
     for line in &stats.known {
         println!("{line}");
     }
+    // Every open entry of the known-findings file is listed on every run, also one whose
+    // shape is excluded by construction and has no reproducer that re-observes it.
+    for f in load_known_findings()
+        .into_iter()
+        .filter(|f| f.property == info.id && f.status == "open")
+    {
+        let tag = format!("[{}]", f.key);
+        if !stats.known.iter().any(|l| l.ends_with(&tag)) {
+            println!(
+                "KNOWN-FINDING: property={} {} (excluded by construction; not re-observed in this run) [{}]",
+                info.id, f.what, f.key
+            );
+        }
+    }
     for v in &stats.violations {
         println!("VIOLATION property={} replay={}", info.id, v.replay);
         eprintln!("  {}", v.message.lines().take(12).collect::<Vec<_>>().join("\n  "));
